@@ -83,8 +83,8 @@ func (p *profile) ParseRef(rawUrl, ref string) (*url.Url, error) {
 
 func (p *profile) Canonicalize(u *url.Url) (*url.Url, error) {
 	if p.repeatedPercentDecoding {
-		if u.Hostname() != "" {
-			u.SetHostname(decodeEncode(u.Hostname(), url.HostPercentEncodeSet))
+		if u.Hostname() != "" && !u.IsIPv6() {
+			u.SetHostname(decodeEncode(u.Hostname(), hostDecodeSet))
 		}
 		if u.Pathname() != "" {
 			u.SetPathname(decodeEncode(u.Pathname(), LaxPathPercentEncodeSet))
@@ -120,6 +120,12 @@ func (p *profile) Canonicalize(u *url.Url) (*url.Url, error) {
 
 	return u, nil
 }
+
+// hostDecodeSet is the set used to re-encode a repeatedly decoded host. Besides the host set it
+// contains the forbidden host code points: a decoded %2F, %3F, %40 ... in an opaque host must stay
+// an escape, otherwise it would be taken for a delimiter by the host setter and change (or, on a
+// second pass, empty) the host. An IPv6 literal has no escapes and is left alone.
+var hostDecodeSet = url.HostPercentEncodeSet.Set('/', ':', '<', '>', '?', '@', '[', '\\', ']', '^', '|')
 
 func decodeEncode(s string, tr *url.PercentEncodeSet) string {
 	r := percentEncode(repeatedDecode(s), tr)
